@@ -230,6 +230,50 @@ theorem unknown_covers_prim_partial (E : Env) (hU : UnifyLaws E) (fuel fuel' : N
     (h : apply E fuel p v = .ok r) (h' : apply E fuel' p v' = .ok r') : Covers r r' = true :=
   unknown_covers_prim hU hpv hw hwt hwt' hty hg hk hc h h'
 
+/-- EVERY placeholder-free target, collections included: `v` unknown (any refinement, marked or
+not), `v'` a null of the same type (marked or not) that `v` admits.  The result for `v` — an unknown
+of the target type, whatever length refinement `prepareUnknownResult` gave it, or the null a
+refinement "is null" collapses to — admits the result for `v'`. -/
+theorem unknown_covers_null_partial (E : Env) (hU : UnifyLaws E) (fuel fuel' : Nat) (uns : Bool)
+    (v v' r r' : Value) (want : Ty) (p : Plan) (hp : RegularPair v want) (hwt' : wtP v'.ty v'.v = true)
+    (hty : v'.ty = v.ty) (hg : getConv E v.ty want uns = some p) (hk : v.isKnown = false)
+    (hn' : v'.isNull = true) (hc : Covers v v' = true)
+    (h : apply E fuel p v = .ok r) (h' : apply E fuel' p v' = .ok r') : Covers r r' = true :=
+  unknown_covers_null hU hp hwt' hty hg hk hn' hc h h'
+
+/-- Full statement of the clause as monotonicity along `Covers` for ALL admitted values, partly
+unknown ones included.  FALSE of the code as it stands — a matter of precision, not of soundness
+for concrete values: see `unknown_covers_counterexample`. -/
+def UnknownCoversAll : Prop :=
+  ∀ (E : Env) (fuel : Nat) (v v' r r' : Value) (want : Ty), UnifyLaws E → RegularPair v want →
+    RegularPair v' want → v'.ty = v.ty → v.isKnown = false → Covers v v' = true →
+    convert E fuel v want = .ok r → convert E fuel v' want = .ok r' → Covers r r' = true
+
+/-- the witness: an unknown set of 1 to 5 strings admits the known set {unknown, "a"} (which has 1 or 2
+members).  Converted to a list, the unknown set keeps its bounds (list of 1 to 5 strings), but the
+known set — its number of members being unknown — becomes an UNREFINED unknown list, which the
+refined result does not admit (it could be empty, or longer than 5).  `conversionCollectionToList`
+could return `UnknownVal(list).Refine().CollectionLengthLowerBound(1).CollectionLengthUpperBound(2)`
+from `val.LengthInt()`'s range instead; every CONCRETE list the known set stands for is admitted. -/
+theorem unknown_covers_counterexample :
+    Covers ⟨.set .string, .unk (.coll .u 1 5)⟩ ⟨.set .string, .sset [1, 2] [.unk .unref, .s "a"]⟩ = true ∧
+    convert Env.simple 4 ⟨.set .string, .unk (.coll .u 1 5)⟩ (.list .string) =
+      .ok ⟨.list .string, .unk (.coll .u 1 5)⟩ ∧
+    convert Env.simple 4 ⟨.set .string, .sset [1, 2] [.unk .unref, .s "a"]⟩ (.list .string) =
+      .ok ⟨.list .string, .unk .unref⟩ ∧
+    Covers ⟨.list .string, .unk (.coll .u 1 5)⟩ ⟨.list .string, .unk .unref⟩ = false := by
+  refine ⟨by decide, rfl, rfl, by decide⟩
+
+theorem unknownCoversAll_false : ¬ UnknownCoversAll := by
+  intro h
+  have := h Env.simple 4 ⟨.set .string, .unk (.coll .u 1 5)⟩ ⟨.set .string, .sset [1, 2] [.unk .unref, .s "a"]⟩
+    ⟨.list .string, .unk (.coll .u 1 5)⟩ ⟨.list .string, .unk .unref⟩
+    (.list .string) unifyLaws_simple ⟨by decide, by decide, by decide⟩
+    ⟨by decide, by decide, by decide⟩ rfl rfl unknown_covers_counterexample.1
+    unknown_covers_counterexample.2.1 unknown_covers_counterexample.2.2.1
+  rw [unknown_covers_counterexample.2.2.2] at this
+  exact absurd this (by decide)
+
 /-- a marked unknown number that is not null admits the marked known 1.5; so do the results -/
 example : Covers ⟨.number, .marked ["m"] (.unk (.num .f none none))⟩ ⟨.number, .n (.fin false 3 (-1) 53)⟩ = true := by
   decide
